@@ -158,7 +158,8 @@ impl ReturnType for BinOperation {
             | BinOperator::Xor => lhs,
             BinOperator::Partition => partition::return_type(lhs),
             BinOperator::Map => map::return_type(rhs),
-            BinOperator::At => lhs.index_result().unwrap(),
+            // an operand of type ! never yields a value, so neither does the operation (also below)
+            BinOperator::At => lhs.index_result().unwrap_or(Type::Never),
             BinOperator::FunctionCall => lhs.return_type().unwrap(),
             BinOperator::Assign => rhs,
             BinOperator::LShift | BinOperator::RShift | BinOperator::Modulo => Type::Int,
